@@ -4677,6 +4677,10 @@ class QuadraticBezier(Curve):
         """Calculate the length of the path up to a certain position"""
         a = self.start - 2 * self.control + self.end
         b = 2 * (self.control - self.start)
+        if abs(a) <= 1e-8 * abs(b):
+            # The control point is the midpoint of the chord up to rounding: a straight line at (nearly) uniform speed.
+            # The closed form below divides by powers of |a| and has no correct digit left there.
+            return abs(self.end - self.start)
         try:
             # For an explanation of this case, see
             # http://www.malczak.info/blog/quadratic-bezier-curve-length/
